@@ -348,7 +348,14 @@ func c17Eval(p *vreport.Part, c c17Case, bound int) {
 			p.Sample(map[string]interface{}{"case": sc.Name, "attempt_hosts": hosts, "response_status": st, "schedule": r.Choices})
 		}
 		if len(resp) != 1 {
-			// a request that did not end with exactly one reply is C03's subject (recorded hang findings); skip
+			// a request that did not end with exactly one reply under a scheduling DEVIATION is C03's subject (the
+			// recorded arbitration findings all need >= 1 deviation); on the default schedule every case of this
+			// grid ends with one reply on the unchanged tree, and none means that the configured timeout / retry
+			// policy was not applied (seeded change C17-r6: the attempt after a per-try-timeout retry is never
+			// answered and no timeout completes it)
+			if r.Cost == 0 {
+				report(c.Kind+": the request did not end with exactly one reply on the default schedule (neither the upstream's answer nor the configured timeout completed it)", fmt.Sprintf("%d replies, %d upstream attempts on hosts %v", len(resp), len(atts), hosts))
+			}
 			p.Count("executions_skipped_not_exactly_one_response", 1)
 			return
 		}
